@@ -94,7 +94,12 @@ macro_rules! div {
         if $div.approximate_eq(0) {
             Err($crate::VariantError::DivisionByZero)
         } else {
-            Ok(($nom / $div).fit_to_type())
+            let quotient = $nom / $div;
+            if quotient.is_finite() {
+                Ok(quotient.fit_to_type())
+            } else {
+                Err($crate::VariantError::Overflow)
+            }
         }
     };
 
@@ -102,7 +107,12 @@ macro_rules! div {
         if $div.approximate_eq(0) {
             Err($crate::VariantError::DivisionByZero)
         } else {
-            Ok(($nom as $cast / $div as $cast).fit_to_type())
+            let quotient = $nom as $cast / $div as $cast;
+            if quotient.is_finite() {
+                Ok(quotient.fit_to_type())
+            } else {
+                Err($crate::VariantError::Overflow)
+            }
         }
     };
 }
@@ -113,6 +123,24 @@ macro_rules! div {
 fn integer_or_overflow(n: i32) -> Result<Variant, VariantError> {
     if (MIN_INTEGER..=MAX_INTEGER).contains(&n) {
         Ok(Variant::VInteger(n))
+    } else {
+        Err(VariantError::Overflow)
+    }
+}
+
+/// The result of a SINGLE operation, which must be a finite number.
+fn single_or_overflow(f: f32) -> Result<Variant, VariantError> {
+    if f.is_finite() {
+        Ok(Variant::VSingle(f))
+    } else {
+        Err(VariantError::Overflow)
+    }
+}
+
+/// The result of a DOUBLE operation, which must be a finite number.
+fn double_or_overflow(d: f64) -> Result<Variant, VariantError> {
+    if d.is_finite() {
+        Ok(Variant::VDouble(d))
     } else {
         Err(VariantError::Overflow)
     }
@@ -222,16 +250,16 @@ impl Variant {
     pub fn plus(self, other: Self) -> Result<Self, VariantError> {
         match self {
             Self::VSingle(f_left) => match other {
-                Self::VSingle(f_right) => Ok(Self::VSingle(f_left + f_right)),
-                Self::VDouble(d_right) => Ok(Self::VDouble(f_left as f64 + d_right)),
-                Self::VInteger(i_right) => Ok(Self::VSingle(f_left + i_right as f32)),
-                Self::VLong(l_right) => Ok(Self::VSingle(f_left + l_right as f32)),
+                Self::VSingle(f_right) => single_or_overflow(f_left + f_right),
+                Self::VDouble(d_right) => double_or_overflow(f_left as f64 + d_right),
+                Self::VInteger(i_right) => single_or_overflow(f_left + i_right as f32),
+                Self::VLong(l_right) => single_or_overflow(f_left + l_right as f32),
                 _ => other.plus(self),
             },
             Self::VDouble(d_left) => match other {
-                Self::VDouble(d_right) => Ok(Self::VDouble(d_left + d_right)),
-                Self::VInteger(i_right) => Ok(Self::VDouble(d_left + i_right as f64)),
-                Self::VLong(l_right) => Ok(Self::VDouble(d_left + l_right as f64)),
+                Self::VDouble(d_right) => double_or_overflow(d_left + d_right),
+                Self::VInteger(i_right) => double_or_overflow(d_left + i_right as f64),
+                Self::VLong(l_right) => double_or_overflow(d_left + l_right as f64),
                 _ => other.plus(self),
             },
             Self::VString(s_left) => match other {
@@ -260,16 +288,16 @@ impl Variant {
     pub fn minus(self, other: Self) -> Result<Self, VariantError> {
         match self {
             Self::VSingle(f_left) => match other {
-                Self::VSingle(f_right) => Ok(Self::VSingle(f_left - f_right)),
-                Self::VDouble(d_right) => Ok(Self::VDouble(f_left as f64 - d_right)),
-                Self::VInteger(i_right) => Ok(Self::VSingle(f_left - i_right as f32)),
-                Self::VLong(l_right) => Ok(Self::VSingle(f_left - l_right as f32)),
+                Self::VSingle(f_right) => single_or_overflow(f_left - f_right),
+                Self::VDouble(d_right) => double_or_overflow(f_left as f64 - d_right),
+                Self::VInteger(i_right) => single_or_overflow(f_left - i_right as f32),
+                Self::VLong(l_right) => single_or_overflow(f_left - l_right as f32),
                 _ => other.minus(self).and_then(|x| x.negate()),
             },
             Self::VDouble(d_left) => match other {
-                Self::VDouble(d_right) => Ok(Self::VDouble(d_left - d_right)),
-                Self::VInteger(i_right) => Ok(Self::VDouble(d_left - i_right as f64)),
-                Self::VLong(l_right) => Ok(Self::VDouble(d_left - l_right as f64)),
+                Self::VDouble(d_right) => double_or_overflow(d_left - d_right),
+                Self::VInteger(i_right) => double_or_overflow(d_left - i_right as f64),
+                Self::VLong(l_right) => double_or_overflow(d_left - l_right as f64),
                 _ => other.minus(self).and_then(|x| x.negate()),
             },
             Self::VInteger(i_left) => match other {
@@ -290,16 +318,16 @@ impl Variant {
     pub fn multiply(self, other: Self) -> Result<Self, VariantError> {
         match self {
             Self::VSingle(f_left) => match other {
-                Self::VSingle(f_right) => Ok(Self::VSingle(f_left * f_right)),
-                Self::VDouble(d_right) => Ok(Self::VDouble(f_left as f64 * d_right)),
-                Self::VInteger(i_right) => Ok(Self::VSingle(f_left * i_right as f32)),
-                Self::VLong(l_right) => Ok(Self::VSingle(f_left * l_right as f32)),
+                Self::VSingle(f_right) => single_or_overflow(f_left * f_right),
+                Self::VDouble(d_right) => double_or_overflow(f_left as f64 * d_right),
+                Self::VInteger(i_right) => single_or_overflow(f_left * i_right as f32),
+                Self::VLong(l_right) => single_or_overflow(f_left * l_right as f32),
                 _ => Err(VariantError::TypeMismatch),
             },
             Self::VDouble(d_left) => match other {
-                Self::VDouble(d_right) => Ok(Self::VDouble(d_left * d_right)),
-                Self::VInteger(i_right) => Ok(Self::VDouble(d_left * i_right as f64)),
-                Self::VLong(l_right) => Ok(Self::VDouble(d_left * l_right as f64)),
+                Self::VDouble(d_right) => double_or_overflow(d_left * d_right),
+                Self::VInteger(i_right) => double_or_overflow(d_left * i_right as f64),
+                Self::VLong(l_right) => double_or_overflow(d_left * l_right as f64),
                 _ => other.multiply(self),
             },
             Self::VInteger(i_left) => match other {
